@@ -30,7 +30,7 @@ fn tol_for_layout(class: &str) -> Tol {
     match class {
         // Layout-dependent kernels may legitimately sum in another order.
         "accum" => Tol::Close(1e-4, 1e-4),
-        _ => Tol::Bits,
+        _ => Tol::Exact,
     }
 }
 
@@ -39,7 +39,7 @@ pub fn run_c14(args: &Args) {
         "C14",
         "modelcheck c14",
         args,
-        "every single-operator case re-run with each input independently passed as a permuted (non-contiguous strides) view, a stepped slice of a larger buffer whose gaps hold NaN / i32::MIN, and (when its leading slices are equal) a stride-0 broadcast view; outputs compared with the all-contiguous run (bits; accumulation tolerance for matmul/conv/reduction/normalisation operators). non-trivial = the alternative layout could be constructed for that input and the operator ran; distinct by (case, input set, input, layout)",
+        "every single-operator case re-run with each input independently passed as a permuted (non-contiguous strides) view, a stepped slice of a larger buffer whose gaps hold NaN / i32::MIN, and (when its leading slices are equal) a stride-0 broadcast view; outputs compared with the all-contiguous run (values exactly, -0 = +0 and NaN = NaN; accumulation tolerance for matmul/conv/reduction/normalisation operators). non-trivial = the alternative layout could be constructed for that input and the operator ran; distinct by (case, input set, input, layout)",
     );
     rep.max_samples = 10;
     let cases = replay_or_pack(args);
@@ -276,7 +276,7 @@ pub fn run_c13(args: &Args) {
                         }
                         Ok(got) => {
                             for (g, b) in got.iter().zip(&base) {
-                                if let Some(diff) = compare(g, b, Tol::Bits) {
+                                if let Some(diff) = compare(g, b, Tol::Exact) {
                                     rep.violation(
                                         format!("C13|{}|{}|input{}|{:?}|{}|in={}", op, c.variant["attrs"], pos, okind, mismatch_kind(&diff), in_shapes(&inputs)),
                                         format!(
@@ -341,7 +341,7 @@ fn commuted(rep: &mut Report, c: &Case, k: usize, model: &Model, node_name: &str
             Ok(Ok(out)) => {
                 if let Some(got) = out.first().and_then(|v| TData::from_value(&base[0].name, v)) {
                     rep.nontrivial(&(&c.id, k, "commuted"));
-                    if let Some(diff) = compare(&got, &base[0], Tol::Bits) {
+                    if let Some(diff) = compare(&got, &base[0], Tol::Exact) {
                         rep.violation(
                             format!("C13|{}|{}|commuted|{}|in={}", op, c.variant["attrs"], mismatch_kind(&diff), in_shapes(inputs)),
                             format!("{} reports is_commutative but swapping the operands changes the result: {}", op, diff),
